@@ -76,7 +76,7 @@ def _pairwise_partners(model, ranks, n):
     return out
 
 
-def posterior(model, teams, ranks, beta, kappa, X, gamma=None, pair_scale=1):
+def posterior(model, teams, ranks, beta, kappa, X, gamma=None, pair_scale=1, details=None):
     """teams: [[(mu, sigma), ...], ...] with sigma already tau-inflated;
     ranks: list of rank values (smaller is better) - None means 0..n-1.
     Returns [[(mu', sigma'), ...], ...] in the order given."""
@@ -104,9 +104,12 @@ def posterior(model, teams, ranks, beta, kappa, X, gamma=None, pair_scale=1):
             g = gamma(c, n, theta[i], s[i], i, dense_rank(ranks, i))
             omega.append(om)
             delta.append(g * de)
+        if details is not None:
+            details.update(theta=theta, s=s, omega=omega, delta=delta, c=c, e=e, A=A, C=C)
         return _finish(teams, s, omega, delta, kappa, X)
     partners = _pairwise_partners(model, ranks, n)
     bt = model.startswith("BradleyTerry")
+    pairs = {}
     for i in range(n):
         om, de = 0, 0
         for q in partners[i]:
@@ -124,22 +127,31 @@ def posterior(model, teams, ranks, beta, kappa, X, gamma=None, pair_scale=1):
                     sc = 0
                 om = om + (s[i] / c_iq) * (sc - p_iq)
                 de = de + g * (s[i] / (c_iq * c_iq)) * p_iq * p_qi
+                pairs[(i, q)] = dict(c=c_iq, p=p_iq, score=sc)
             else:
                 t = kappa / c_iq
                 if ranks[q] > ranks[i]:
                     x = (theta[i] - theta[q]) / c_iq
-                    om = om + (s[i] / c_iq) * X.v(x, t)
+                    vv = X.v(x, t)
+                    om = om + (s[i] / c_iq) * vv
                     de = de + g * (s[i] / (c_iq * c_iq)) * X.w(x, t)
+                    pairs[(i, q)] = dict(c=c_iq, t=t, x=x, kind="win", v=vv)
                 elif ranks[q] < ranks[i]:
                     x = (theta[q] - theta[i]) / c_iq
-                    om = om - (s[i] / c_iq) * X.v(x, t)
+                    vv = X.v(x, t)
+                    om = om - (s[i] / c_iq) * vv
                     de = de + g * (s[i] / (c_iq * c_iq)) * X.w(x, t)
+                    pairs[(i, q)] = dict(c=c_iq, t=t, x=x, kind="loss", v=vv)
                 else:
                     x = (theta[i] - theta[q]) / c_iq
-                    om = om + (s[i] / c_iq) * X.vt(x, t)
+                    vv = X.vt(x, t)
+                    om = om + (s[i] / c_iq) * vv
                     de = de + g * (s[i] / (c_iq * c_iq)) * X.wt(x, t)
+                    pairs[(i, q)] = dict(c=c_iq, t=t, x=x, kind="tie", v=vv)
         omega.append(om)
         delta.append(de)
+    if details is not None:
+        details.update(theta=theta, s=s, omega=omega, delta=delta, pairs=pairs, partners=partners)
     return _finish(teams, s, omega, delta, kappa, X)
 
 
